@@ -284,8 +284,13 @@ def model_thread_channels(prog, eff, model):
         nm = "ALLOC%d" % len(roots)
         roots.append((nm, a[0], a[1]))
         return [(PTR(nm, (0,)) if not (a[0] == INT(1)) else PTR(nm), {(nm, ("zeroinit",)): INT(1)})]
+    def s_malloc(ex_, st, a, f, e):
+        csz_ = prog.records.get("chan", {}).get("size")
+        if a[0][0] == "int" and csz_ and a[0][1] % csz_ == 0 and a[0][1] // csz_ > 1:
+            return s_calloc(ex_, st, [INT(a[0][1] // csz_), INT(csz_)], f, e)
+        return s_calloc(ex_, st, [INT(1), a[0]], f, e)
     ex = chan_explorer(prog, eff, files=("src/emu/model_thread.c",), loop_bound=16,
-                       extra={"calloc": s_calloc, "bay_register": lambda ex_, st, a, f, e: [(INT(0), {})],
+                       extra={"calloc": s_calloc, "malloc": s_malloc, "bay_register": lambda ex_, st, a, f, e: [(INT(0), {})],
                               "track_init": lambda ex_, st, a, f, e: [(INT(0), {})],
                               "extend_set": lambda ex_, st, a, f, e: [(TOP, {})]})
     store = {DBG: INT(0), ("EMU", F("emu", "system") + F("system", "threads")): PTR("STH"),
@@ -800,9 +805,11 @@ def check_breakdown_schedule(ctx, rule):
                 muxes[c[1][0]]["inputs"][c[1][1][1]] = c[1][2]
             if c[0] == "default" and c[1][0] in muxes:
                 muxes[c[1][0]]["default"] = c[1][1]
-        m0 = [m for m in muxes.values() if m["fn"] == "select_tr"]
-        m1 = [m for m in muxes.values() if m["fn"] == "select_idle"]
-        ctx.need(len(m0) == 1 and len(m1) == 1, "%s: cannot identify mux0 / mux1 by their select functions" % model)
+        # mux1 is the one fed by the other's output (whatever the select functions are called)
+        ms_ = list(muxes.values())
+        m1 = [m for m in ms_ if any(o is not m and o["out"] in m["inputs"].values() for o in ms_)]
+        m0 = [m for m in ms_ if m not in m1]
+        ctx.need(len(m0) == 1 and len(m1) == 1, "%s: cannot identify mux0 / mux1 from the wiring" % model)
         m0, m1 = m0[0], m1[0]
         tr, tri = m0["out"], m1["out"]
         # roles of the tracked channels, from the wiring itself (R20.1 checks that wiring against the documentation)
